@@ -3106,7 +3106,7 @@ use crate::source::VM_FILE_TEST_ID;
 /// for the contract harnesses under /verif. Nothing here changes behaviour.
 #[cfg(feature = "verif")]
 pub mod verif {
-  use super::{get_infix, get_prefix, Precedence};
+  use super::{get_infix, get_prefix, Infix, Precedence, Prefix};
   pub use crate::compiler::ir::token::TokenKind;
 
   /// ordinal of the infix binding power of `kind` (None = 0 .. Primary = 11)
@@ -3122,6 +3122,41 @@ pub mod verif {
   /// does `kind` have a prefix parse action
   pub fn has_prefix(kind: TokenKind) -> bool {
     get_prefix(kind).op.is_some()
+  }
+
+  /// the infix parse action of `kind` by name (0 = none)
+  pub fn infix_action(kind: TokenKind) -> u8 {
+    match get_infix(kind).op {
+      None => 0,
+      Some(Infix::And) => 1,
+      Some(Infix::Binary) => 2,
+      Some(Infix::Ternary) => 3,
+      Some(Infix::Call) => 4,
+      Some(Infix::Dot) => 5,
+      Some(Infix::Index) => 6,
+      Some(Infix::Or) => 7,
+    }
+  }
+
+  /// the prefix parse action of `kind` by name (0 = none)
+  pub fn prefix_action(kind: TokenKind) -> u8 {
+    match get_prefix(kind).op {
+      None => 0,
+      Some(Prefix::Channel) => 1,
+      Some(Prefix::Grouping) => 2,
+      Some(Prefix::Interpolation) => 3,
+      Some(Prefix::Lambda) => 4,
+      Some(Prefix::List) => 5,
+      Some(Prefix::Literal) => 6,
+      Some(Prefix::Map) => 7,
+      Some(Prefix::Number) => 8,
+      Some(Prefix::Self_) => 9,
+      Some(Prefix::String) => 10,
+      Some(Prefix::Super) => 11,
+      Some(Prefix::Unary) => 12,
+      Some(Prefix::InstanceAccess) => 13,
+      Some(Prefix::Variable) => 14,
+    }
   }
 
   /// ordinal of `Precedence::higher` applied to the precedence with ordinal `p` (`p` below Primary)
